@@ -18,6 +18,7 @@ func init() {
 		ruleDef{"C11.R5", c11r5},
 		ruleDef{"C11.R6", c11r6},
 		ruleDef{"C11.R7", c11r7},
+		ruleDef{"C11.R9", func(r *R) { lockNotReentered(r, "C11.R9", false) }},
 	)
 }
 
